@@ -314,27 +314,37 @@ Qed.
 
 (* ------------------------------------------------------------------ PKCE, request objects, issuer, Discover *)
 
-Lemma pkce_honoured r c m v :
-  string_in m (doc_pkce c) = true -> pkce_issued r c m v = rel_matches m v.
-Proof.
-  unfold doc_pkce. destruct (f_s256 c); cbn; [|discriminate].
-  rewrite orb_false_r. intro H. apply String.eqb_eq in H. subst m.
-  destruct v; reflexivity.
-Qed.
-
-(* the endpoints also honour "plain", which is never advertised *)
-Lemma pkce_plain_honoured r c v : pkce_issued r c "plain" v = rel_matches "plain" v.
-Proof. destruct v; reflexivity. Qed.
-
 Lemma pkce_advertised_methods c m : string_in m (doc_pkce c) = true -> m = "S256" /\ f_s256 c = true.
 Proof.
   unfold doc_pkce. destruct (f_s256 c); cbn; [|discriminate].
   rewrite orb_false_r. intro H. apply String.eqb_eq in H. now split.
 Qed.
 
-Lemma request_object_honoured r c :
-  (doc_reqparam c = true <-> reqobj_outcome r c = RoHonoured)
-  /\ (doc_reqparam c = false <-> reqobj_outcome r c = RoNotSupported).
+(* for every client kind and every verifier situation (absent included): a code bound to an
+   advertised method yields tokens exactly when the verifier satisfies the method *)
+Lemma pkce_honoured r c k m v :
+  string_in m (doc_pkce c) = true ->
+  pkce_issued r c k (Some m) v = rel_matches m v && client_ok c k.
+Proof.
+  intro H. destruct (pkce_advertised_methods c m H) as [-> _].
+  unfold pkce_issued. rewrite andb_comm. f_equal; destruct v; reflexivity.
+Qed.
+
+(* in particular no tokens without a verifier, and none for a verifier that only matches as "plain" *)
+Lemma pkce_no_downgrade r c k m v :
+  string_in m (doc_pkce c) = true -> (v = VAbsent \/ v = VPlain \/ v = VNone) -> pkce_issued r c k (Some m) v = false.
+Proof.
+  intros H Hv. rewrite (pkce_honoured r c k m v H). destruct (pkce_advertised_methods c m H) as [-> _].
+  destruct Hv as [ -> | [ -> | -> ] ]; reflexivity.
+Qed.
+
+(* the endpoints also honour "plain", which is never advertised *)
+Lemma pkce_plain_honoured r c k v : pkce_issued r c k (Some "plain") v = rel_matches "plain" v && client_ok c k.
+Proof. unfold pkce_issued. rewrite andb_comm. f_equal; destruct v; reflexivity. Qed.
+
+Lemma request_object_honoured r c k :
+  (doc_reqparam c = true <-> reqobj_outcome r c k = RoHonoured)
+  /\ (doc_reqparam c = false <-> reqobj_outcome r c k = RoNotSupported).
 Proof.
   unfold doc_reqparam, reqobj_outcome. destruct r; destruct (f_reqobj c); split; split; intro H; try reflexivity; discriminate.
 Qed.
@@ -413,7 +423,7 @@ Qed.
 
 Lemma spec_model i : wf i = true -> spec i (model i) = true.
 Proof.
-  destruct i as [r c q probes | r c gs | r c m v | r c q | api raw hostless o insecure | asked d]; cbn [wf model spec].
+  destruct i as [r c q probes | r c gs | r c k ch v | r c k q | api raw hostless o insecure | asked d]; cbn [wf model spec].
   - intro H. apply andb_true_iff in H. destruct H as [Hc Hp].
     unfold wf_config in Hc. apply andb_true_iff in Hc. destruct Hc as [Hc _].
     unfold doc_endpoint, doc_issuer, token_issuer.
@@ -421,8 +431,9 @@ Proof.
     rewrite (spec_eps_model r c (issuer_of c q) all_epnames probes Hc Hp). cbn.
     destruct (has_auth_and_token c); [apply String.eqb_refl | reflexivity].
   - intros _. apply spec_grants_model.
-  - intros _. destruct (string_in m (doc_pkce c)) eqn:E; [|reflexivity].
-    rewrite (pkce_honoured r c m v E). apply eqb_reflx.
+  - intros _. destruct ch as [m|]; [|reflexivity].
+    destruct (string_in m (doc_pkce c)) eqn:E; [|reflexivity].
+    rewrite (pkce_honoured r c k m v E). apply eqb_reflx.
   - intros _. unfold reqobj_outcome, doc_reqparam. destruct r; destruct (f_reqobj c); reflexivity.
   - intro H. apply andb_true_iff in H. destruct H as [Hh Hs].
     destruct (bad_issuer api raw hostless insecure) eqn:B; [|reflexivity].
